@@ -215,6 +215,7 @@ pub fn run_c06(out: &mut Out, tier: &str, seed: u64) {
     }
     crate::objapi::long_inputs(out, &mut rng, true);
     crate::objapi::mixed_order_signatures(out, &mut rng);
+    crate::objapi::sign_keypair_fields(out, &mut rng);
     crate::consts::check(out, &["CRYPTO_SIGN"]);
     crate::objapi::sign_modes_and_chunks(out, &mut rng);
 }
@@ -304,15 +305,18 @@ pub fn run_c13(out: &mut Out, tier: &str, seed: u64) {
     // a key pair derived from a password: crypto_pwhash(32 bytes) then base multiplication, for several hash_length settings
     for (j, hl) in [32usize, 64, 16, 48].iter().enumerate() {
         let pw = rng.bytes(9 + j); let salt: [u8; 16] = rng.arr();
-        let cfg = dryoc::pwhash::Config::interactive().with_opslimit(2).with_memlimit(64 * 1024).with_hash_length(*hl);
+        // memory sizes that are and are not multiples of 4 KiB (Argon2 rounds the blocks it works on, not the count it hashes)
+        let (ops, mem) = [(2u64, 64 * 1024usize), (1, 11 * 1024), (3, 8192 + 1536), (1, 67 * 1024 + 1)][j];
+        let cfg = dryoc::pwhash::Config::interactive().with_opslimit(ops).with_memlimit(mem).with_hash_length(*hl);
         out.search_evaluations += 1;
         let kp = guard(|| dryoc::pwhash::VecPwHash::derive_keypair::<_, StackByteArray<32>, StackByteArray<32>>(&pw, salt.to_vec(), cfg.clone()));
-        let want_sk: Option<[u8; 32]> = sodium::pwhash(32, &pw, &salt, 2, 64 * 1024, 2).map(|v| v.try_into().unwrap());
+        let want_sk: Option<[u8; 32]> = sodium::pwhash(32, &pw, &salt, ops, mem, 2).map(|v| v.try_into().unwrap());
         match (kp, want_sk) {
-            (Outcome::Ok(kp), Some(ws)) => { if kp.secret_key.as_array() != &ws || kp.public_key.as_array() != &sodium::scalarmult_base(&ws) { out.hit("pwhash.derive_keypair.differs-from-libsodium-construction", format!("hash_length {}", hl), json!({"op":"obj.PwHash.derive_keypair","pw":hx(&pw),"salt":hx(&salt),"hash_length":hl})); } }
+            (Outcome::Ok(kp), Some(ws)) => { if kp.secret_key.as_array() != &ws || kp.public_key.as_array() != &sodium::scalarmult_base(&ws) { out.hit("pwhash.derive_keypair.differs-from-libsodium-construction", format!("hash_length {} opslimit {} memlimit {}", hl, ops, mem), json!({"op":"obj.PwHash.derive_keypair","pw":hx(&pw),"salt":hx(&salt),"hash_length":hl,"opslimit":ops,"memlimit":mem})); } }
             (o, _) => out.hit("pwhash.derive_keypair.fails", format!("hash_length {} ({})", hl, o.class()), json!({"hash_length":hl})),
         }
-    }    // ... and the whole salt the caller passes is used, whatever salt_length the config carries
+    }
+    // ... and the whole salt the caller passes is used, whatever salt_length the config carries
     {
         use dryoc::classic::crypto_pwhash::{crypto_pwhash, PasswordHashAlgorithm};
         let pw = rng.bytes(11);
